@@ -1,4 +1,6 @@
 import VyxalModel.Lemmas.Balance
+import VyxalModel.Lemmas.BalanceShift
+import VyxalModel.Model.Placed
 import VyxalModel.Model.Transpile
 import VyxalModel.Gen.Elements
 import VyxalModel.Gen.Modifiers
@@ -183,5 +185,726 @@ theorem lambda_template_balanced (lb fb : Option D4) (cur : D4) (id : Str) (ar :
   have h3 : skelS (push (.pname "_lambda_" id)) = .other := by
     simp [push, skelS, stackE, mutatesE, mutatesEL, mutatesKw, isCtxList]
   simp only [lambdaTemplate, skelL, skelS, h2, h3, chkL, chkS, hdef]
+
+/-! ## the tree-level theorem -/
+
+@[local simp] theorem ex_ok_bind {ε α β} (a : α) (f : α → Except ε β) : ((Except.ok a : Except ε α) >>= f) = f a := rfl
+@[local simp] theorem ex_err_bind {ε α β} (e : ε) (f : α → Except ε β) : ((Except.error e : Except ε α) >>= f) = .error e := rfl
+@[local simp] theorem ex_map_ok {ε α β} (a : α) (f : α → β) : (f <$> (Except.ok a : Except ε α)) = .ok (f a) := rfl
+@[local simp] theorem ex_map_err {ε α β} (e : ε) (f : α → β) : (f <$> (Except.error e : Except ε α)) = .error e := rfl
+@[local simp] theorem ex_pure {ε α} (a : α) : (pure a : Except ε α) = .ok a := rfl
+
+def TablesBalanced (env : TEnv) : Prop := (env.elements ++ env.modifiers).all entryBalanced = true
+
+/-- what the checker may answer for code placed in context `c` at delta `cur`: it falls through at `cur`, or — inside a
+    loop body or a lambda body — it never falls through (it left with `break` / `continue` / `return` at the right depth) -/
+def Res (c : BCtx) (cur : D4) (r : Option (Option D4)) : Prop :=
+  r = some (some cur) ∨ (c ≠ .plain ∧ r = some none)
+
+/-- the depths a context guarantees -/
+def Inv (c : BCtx) (lb fb : Option D4) (cur : D4) : Prop :=
+  match c with
+  | .plain => True
+  | .loop => ∃ base, lb = some base ∧ cur = base.add cv1
+  | .lam => fb = some D4.zero ∧ cur = all1
+
+def ResL (c : BCtx) (lb fb : Option D4) (cur : D4) (code : List PyStmt) : Prop := Res c cur (chkL lb fb cur (skelL code))
+
+theorem resL_append (c : BCtx) (lb fb : Option D4) (cur : D4) (a b : List PyStmt)
+    (ha : ResL c lb fb cur a) (hb : ResL c lb fb cur b) : ResL c lb fb cur (a ++ b) := by
+  unfold ResL at *
+  rw [skelL_append, chkL_append]
+  rcases ha with ha | ⟨hc, ha⟩
+  · rw [ha]; exact hb
+  · rw [ha]; exact Or.inr ⟨hc, rfl⟩
+
+theorem resL_nil (c : BCtx) (lb fb : Option D4) (cur : D4) : ResL c lb fb cur [] := Or.inl (by simp [skelL, chkL])
+
+theorem resL_orPass (c : BCtx) (lb fb : Option D4) (cur : D4) (b : List PyStmt) (h : ResL c lb fb cur b) :
+    ResL c lb fb cur (orPass b) := by
+  unfold orPass
+  cases b with
+  | nil => exact Or.inl (by simp [skelL, skelS, chkL, chkS])
+  | cons s r => simpa using h
+
+theorem exact_resL (c : BCtx) (lb fb : Option D4) (cur : D4) (code : List PyStmt)
+    (h : chkL lb fb cur (skelL code) = some (some cur)) : ResL c lb fb cur code := Or.inl h
+
+/-- a statement that is `other` in the skeleton -/
+theorem other_chk (lb fb : Option D4) (cur : D4) (s : PyStmt) (rest : List PyStmt) (hs : skelS s = .other) :
+    chkL lb fb cur (skelL (s :: rest)) = chkL lb fb cur (skelL rest) := by
+  simp [skelL, hs, chkL, chkS]
+
+theorem push_other (e : PyExpr) (he : mutatesE e = false) : skelS (push e) = .other := by
+  simp [push, stackE, skelS, mutatesE, mutatesEL, mutatesKw, isCtxList, he]
+
+theorem push_chk (lb fb : Option D4) (cur : D4) (e : PyExpr) (he : mutatesE e = false) :
+    chkL lb fb cur (skelL [push e]) = some (some cur) := by
+  rw [other_chk lb fb cur _ _ (push_other e he)]; simp [skelL, chkL]
+
+theorem lookup_mem (tbl : List Gen.Entry) (k : Str) (e : Gen.Entry) (h : lookupEntry tbl k = some e) : e ∈ tbl := by
+  have : ∀ (l : List Gen.Entry) (acc : Option Gen.Entry),
+      l.foldl (fun acc e => if e.key = k then some e else acc) acc = some e → e ∈ l ∨ acc = some e := by
+    intro l
+    induction l with
+    | nil => intro acc h; exact Or.inr h
+    | cons x xs ih =>
+      intro acc h
+      simp only [List.foldl_cons] at h
+      rcases ih _ h with h1 | h1
+      · exact Or.inl (List.mem_cons_of_mem _ h1)
+      · split at h1
+        · simp at h1; subst h1; exact Or.inl (by simp)
+        · exact Or.inr h1
+  rcases this tbl none h with h1 | h1
+  · exact h1
+  · simp at h1
+
+theorem entry_neutral (env : TEnv) (hT : TablesBalanced env) (e : Gen.Entry) (he : e ∈ env.elements ++ env.modifiers)
+    (b : List PyStmt) (hb : e.body = some b) (lb fb : Option D4) (cur : D4) : chkL lb fb cur (skelL b) = some (some cur) := by
+  have h := List.all_eq_true.mp hT e he
+  simp only [entryBalanced, hb, balancedTop, beq_iff_eq] at h
+  exact neutral_everywhere (skelL b) h lb fb cur
+
+theorem pyInt_mut (i : Int) : mutatesE (pyInt i) = false := by
+  unfold pyInt; split <;> simp [mutatesE]
+
+theorem token_chk (env : TEnv) (hT : TablesBalanced env) (t : Token) (code : List PyStmt) (ht : transpileToken env t = .ok code)
+    (lb fb : Option D4) (cur : D4) : chkL lb fb cur (skelL code) = some (some cur) := by
+  unfold transpileToken at ht
+  cases hk : t.kind with
+  | string =>
+    simp only [hk] at ht
+    split at ht
+    · simp at ht; subst ht; exact push_chk lb fb cur _ (by simp [mutatesE])
+    · simp at ht
+    · simp at ht
+  | number =>
+    simp only [hk] at ht
+    simp at ht; subst ht; exact push_chk lb fb cur _ (by simp [mutatesE, mutatesEL, mutatesKw, isCtxList])
+  | general =>
+    simp only [hk] at ht
+    cases hl : lookupEntry env.elements t.value with
+    | none => simp [hl] at ht; subst ht; simp [skelL, skelS, chkL, chkS]
+    | some e =>
+      simp only [hl] at ht
+      cases hb : e.body with
+      | none => simp [hb] at ht
+      | some b =>
+        simp [hb] at ht; subst ht
+        exact entry_neutral env hT e (List.mem_append_left _ (lookup_mem _ _ _ hl)) b hb lb fb cur
+  | cnum =>
+    simp only [hk] at ht
+    split at ht
+    · simp at ht; subst ht; exact push_chk lb fb cur _ (by simp [mutatesE])
+    · simp at ht
+  | cstr =>
+    simp only [hk] at ht
+    split at ht
+    · simp at ht; subst ht; exact push_chk lb fb cur _ (by simp [mutatesE])
+    · simp at ht
+  | vget =>
+    simp only [hk] at ht
+    split at ht
+    · simp at ht; subst ht; exact push_chk lb fb cur _ (by simp [mutatesE, ctxE])
+    · split at ht <;> (simp at ht; subst ht; exact push_chk lb fb cur _ (by simp [mutatesE, ctxE]))
+  | vset =>
+    simp only [hk] at ht
+    split at ht
+    · simp at ht; subst ht
+      simp [skelL, skelS, chkL, chkS, assign1, pop1kw, stackE, kwCtx, ctxE, mutatesE, mutatesEL, mutatesKw, badTarget, isBookList]
+    · split at ht
+      · simp at ht; subst ht
+        simp [skelL, skelS, chkL, chkS, assign1, pop1kw, pop1pos, stackE, kwCtx, ctxE, mutatesE, mutatesEL, mutatesKw, badTarget]
+      · simp at ht; subst ht
+        simp [skelL, skelS, chkL, chkS, assign1, pop1kw, pop1pos, stackE, kwCtx, ctxE, mutatesE, mutatesEL, mutatesKw, badTarget]
+  | cpnum =>
+    simp only [hk] at ht
+    simp at ht; subst ht
+    exact push_chk lb fb cur _ (pyInt_mut _)
+  | character =>
+    simp only [hk] at ht
+    simp at ht; subst ht; exact push_chk lb fb cur _ (by simp [mutatesE])
+
+theorem mod_chk (env : TEnv) (hT : TablesBalanced env) (m : Str) (tmpl : List PyStmt) (ht : modTemplate env m = .ok tmpl)
+    (lb fb : Option D4) (cur : D4) : chkL lb fb cur (skelL tmpl) = some (some cur) := by
+  unfold modTemplate at ht
+  cases hl : lookupEntry env.modifiers m with
+  | none => simp [hl] at ht; subst ht; simp [skelL, skelS, chkL, chkS]
+  | some e =>
+    simp only [hl] at ht
+    cases hb : e.body with
+    | none => simp [hb] at ht
+    | some b =>
+      simp [hb] at ht; subst ht
+      exact entry_neutral env hT e (List.mem_append_right _ (lookup_mem _ _ _ hl)) b hb lb fb cur
+
+/-! ### structure templates in a context -/
+
+theorem condPop_other : skelS condPop = .other := by
+  simp [condPop, assign1, skelS, nm, pop1kw, stackE, kwCtx, ctxE, mutatesE, mutatesEL, mutatesKw, badTarget]
+
+def ifJoin (a b : Option (Option D4)) : Option (Option D4) :=
+  match a, b with
+  | some x, some y => joinIf x y
+  | _, _ => none
+
+theorem chkS_ifS (lb fb : Option D4) (cur : D4) (t e : List Sk) :
+    chkS lb fb cur (.ifS t e) = ifJoin (chkL lb fb cur t) (chkL lb fb cur e) := by
+  simp only [chkS, ifJoin]
+  cases chkL lb fb cur t <;> cases chkL lb fb cur e <;> rfl
+
+theorem res_joinIf (c : BCtx) (cur : D4) (a b : Option (Option D4)) (ha : Res c cur a) (hb : Res c cur b) :
+    Res c cur (ifJoin a b) := by
+  rcases ha with ha | ⟨hc, ha⟩ <;> rcases hb with hb | ⟨hc', hb⟩ <;> subst ha <;> subst hb
+  · exact Or.inl (by simp [ifJoin, joinIf])
+  · exact Or.inl (by simp [ifJoin, joinIf])
+  · exact Or.inl (by simp [ifJoin, joinIf])
+  · exact Or.inr ⟨hc, by simp [ifJoin, joinIf]⟩
+
+/-- `condition = pop(..); if boolify(condition): <t> else: <e>` -/
+theorem if_resL (c : BCtx) (lb fb : Option D4) (cur : D4) (t e : List PyStmt) (ht : ResL c lb fb cur t) (he : ResL c lb fb cur e) :
+    ResL c lb fb cur [condPop, .ifS boolifyCond t e] := by
+  unfold ResL at *
+  have hbc : mutatesE boolifyCond = false := by decide
+  rw [other_chk lb fb cur _ _ condPop_other]
+  have hsk : skelL [PyStmt.ifS boolifyCond t e] = [.ifS (skelL t) (skelL e)] := by
+    simp [skelL, skelS, hbc]
+  rw [hsk]
+  simp only [chkL, chkS_ifS]
+  have h := res_joinIf c cur _ _ ht he
+  rcases h with h | ⟨hc, h⟩
+  · rw [h]; exact Or.inl rfl
+  · rw [h]; exact Or.inr ⟨hc, rfl⟩
+
+def allRes (c : BCtx) (lb fb : Option D4) (cur : D4) : List (List PyStmt) → Prop
+  | [] => True
+  | b :: r => ResL c lb fb cur b ∧ allRes c lb fb cur r
+
+theorem ifChain_resL (c : BCtx) (lb fb : Option D4) (cur : D4) : ∀ (cs : List (List PyStmt)), allRes c lb fb cur cs →
+    ResL c lb fb cur (ifChain cs)
+  | [], _ => resL_nil c lb fb cur
+  | [b0], h => by simpa [ifChain] using if_resL c lb fb cur b0 [] h.1 (resL_nil c lb fb cur)
+  | [b0, b1], h => by simpa [ifChain] using if_resL c lb fb cur b0 b1 h.1 h.2.1
+  | b0 :: b1 :: b2 :: rest, h => by
+      have ih := ifChain_resL c lb fb cur (b2 :: rest) h.2.2
+      simpa [ifChain] using if_resL c lb fb cur b0 (b1 ++ ifChain (b2 :: rest)) h.1 (resL_append c lb fb cur _ _ h.2.1 ih)
+
+theorem loopBody_of_res (fb : Option D4) (cur : D4) (body : List PyStmt)
+    (h : ResL .loop (some cur) fb (cur.add cv1) body) : LoopBodyOK fb cur body := by
+  rcases h with h | ⟨_, h⟩
+  · exact Or.inl h
+  · exact Or.inr h
+
+theorem while2_chk (lb fb : Option D4) (cur : D4) (c1 c2 body : List PyStmt)
+    (h1 : chkL lb fb cur (skelL c1) = some (some cur)) (h2 : chkL (some cur) fb cur (skelL c2) = some (some cur))
+    (hb : LoopBodyOK fb cur body) :
+    chkL lb fb cur (skelL (c1 ++ [ condPop, .whileS boolifyCond
+      ([ctxCall "context_values" "append" [nm "condition"]] ++ body ++ [ctxCall "context_values" "pop" []] ++ c2 ++ [condPop]) ])) =
+      some (some cur) := by
+  have hbc : mutatesE boolifyCond = false := by decide
+  have hcn : mutatesE (nm "condition") = false := by decide
+  rw [skelL_append, chkL_append, h1]
+  simp only [skelL, skelS, condPop_other, hbc, Bool.false_eq_true, if_false, skelL_append, skel_cv_append _ hcn, skel_cv_pop, chkL, chkS,
+    List.cons_append, List.nil_append]
+  rcases hb with hb | hb
+  · simp only [chkL_append, hb, chkL, chkS, add_cv1_back, h2, if_true]
+  · simp only [chkL_append, hb]
+
+theorem fnCall_chk (lb fb : Option D4) (cur : D4) (name : Str) : chkL lb fb cur (skelL (fnCallTemplate name)) = some (some cur) := by
+  simp [fnCallTemplate, skelL, skelS, chkL, chkS, stackE, ctxE, mutatesE, mutatesEL, mutatesKw, badTarget, isCtxList]
+
+theorem paramStmt_other (p : Str) : skelS (paramStmt p) = .other := by
+  unfold paramStmt
+  split
+  · simp [skelS, nm, callN, ctxE, mutatesE, mutatesEL, mutatesKw, badTarget, isCtxList]
+  · split
+    · simp [skelS, nm, pop1kw, kwCtx, ctxE, mutatesE, mutatesEL, mutatesKw, badTarget, isCtxList]
+    · simp [skelS, assign1, nm, pop1kw, kwCtx, ctxE, mutatesE, mutatesEL, mutatesKw, badTarget]
+
+theorem params_chk (lb fb : Option D4) (cur : D4) : ∀ (ps : List Str) (rest : List Sk),
+    chkL lb fb cur (skelL (ps.map paramStmt) ++ rest) = chkL lb fb cur rest
+  | [], rest => by simp [skelL]
+  | p :: ps, rest => by
+      simp only [List.map_cons, skelL, paramStmt_other p, List.cons_append, chkL, chkS]
+      exact params_chk lb fb cur ps rest
+
+theorem fnDef_chk (lb fb : Option D4) (cur : D4) (name : Str) (params : List Str) (body : List PyStmt)
+    (hb : chkL none (some D4.zero) fn1 (skelL body) = some (some fn1)) :
+    chkL lb fb cur (skelL (fnDefTemplate name params body)) = some (some cur) := by
+  have hpro : chkL none (some D4.zero) D4.zero (skelL (fnDefPrologue name params)) = some (some fn1) := by
+    simp only [fnDefPrologue, skelL_append]
+    have h0 : skelL [assign1 (nm "parameters") (.list [])] = [.other] := by
+      simp [skelL, skelS, assign1, nm, mutatesE, mutatesEL, badTarget]
+    rw [h0]
+    simp only [List.cons_append, List.nil_append, chkL, chkS]
+    rw [params_chk]
+    simp [skelL, skelS, chkL, chkS, assign1, ctxCall, ctxE, nm, stackE, mutatesE, mutatesEL, mutatesKw, mutatesO, badTarget, listDelta, fn1,
+      D4.add, D4.zero]
+  have hepi : chkL none (some D4.zero) fn1 (skelL fnDefEpilogue) = some none := by decide
+  have hdef : chkL none (some D4.zero) D4.zero (skelL (fnDefPrologue name params ++ body ++ fnDefEpilogue)) = some none := by
+    rw [skelL_append, skelL_append, List.append_assoc, chkL_append, hpro]
+    simp only [chkL_append, hb, hepi]
+  simp only [fnDefTemplate, skelL, skelS, chkL, chkS, hdef]
+
+theorem listItem_chk (lb fb : Option D4) (cur : D4) (item : List PyStmt)
+    (hi : chkL none (some D4.zero) D4.zero (skelL item) = some (some D4.zero)) (rest : List Sk) :
+    chkL lb fb cur (skelL (listItemTemplate item) ++ rest) = chkL lb fb cur rest := by
+  have h0 : skelL [assign1 stackE (callN "list" [callN "deep_copy" [nm "s"]])] = [.other] := by
+    simp [skelL, skelS, assign1, stackE, callN, nm, mutatesE, mutatesEL, mutatesKw, badTarget]
+  have hepi : chkL none (some D4.zero) D4.zero (skelL listItemEpilogue) = some none := by decide
+  have hdef : chkL none (some D4.zero) D4.zero (skelL ([assign1 stackE (callN "list" [callN "deep_copy" [nm "s"]])] ++ item ++ listItemEpilogue)) =
+      some none := by
+    rw [skelL_append, skelL_append, List.append_assoc, chkL_append, h0]
+    simp only [chkL, chkS, chkL_append, hi, hepi]
+  have h2 : skelS (assign1 (nm "f") (callN "list_item" [stackE, ctxE])) = .other := by
+    simp [skelS, assign1, nm, callN, stackE, ctxE, mutatesE, mutatesEL, mutatesKw, badTarget]
+  have h3 : skelS (.ifS (.compare (nm "f") [(.isNot, .cnone)]) [.expr (.call (.attr (nm "temp_list") "append") [nm "f"] [])] []) =
+      .ifS [.other] [] := by
+    simp [skelS, skelL, nm, mutatesE, mutatesEL, mutatesKw, mutatesC, isCtxList]
+  have hsk : skelL (listItemTemplate item) =
+      [.defn (skelL ([assign1 stackE (callN "list" [callN "deep_copy" [nm "s"]])] ++ item ++ listItemEpilogue)),
+       skelS (assign1 (nm "f") (callN "list_item" [stackE, ctxE])),
+       skelS (.ifS (.compare (nm "f") [(.isNot, .cnone)]) [.expr (.call (.attr (nm "temp_list") "append") [nm "f"] [])] [])] := rfl
+  rw [hsk, h2, h3]
+  show chkL lb fb cur (.defn _ :: .other :: .ifS [.other] [] :: rest) = _
+  simp only [chkL, chkS, hdef, joinIf, if_true]
+
+theorem listItems_chk (lb fb : Option D4) (cur : D4) : ∀ (items : List (List PyStmt)) (rest : List Sk),
+    (∀ i ∈ items, chkL none (some D4.zero) D4.zero (skelL i) = some (some D4.zero)) →
+    chkL lb fb cur (skelL (items.map listItemTemplate).flatten ++ rest) = chkL lb fb cur rest
+  | [], rest, _ => by simp [skelL]
+  | i :: r, rest, h => by
+      simp only [List.map_cons, List.flatten_cons, skelL_append, List.append_assoc]
+      rw [listItem_chk lb fb cur i (h i (by simp))]
+      exact listItems_chk lb fb cur r rest (fun j hj => h j (by simp [hj]))
+
+theorem list_chk (lb fb : Option D4) (cur : D4) (items : List (List PyStmt))
+    (h : ∀ i ∈ items, chkL none (some D4.zero) D4.zero (skelL i) = some (some D4.zero)) :
+    chkL lb fb cur (skelL (listTemplate items)) = some (some cur) := by
+  have h0 : skelS (assign1 (nm "temp_list") (.list [])) = .other := by
+    simp [skelS, assign1, nm, mutatesE, mutatesEL, badTarget]
+  have h1 : skelS (push (callN "list" [callN "deep_copy" [nm "temp_list"]])) = .other :=
+    push_other _ (by simp [callN, nm, mutatesE, mutatesEL, mutatesKw])
+  simp only [listTemplate, skelL_append, skelL, h0, List.cons_append, List.nil_append, chkL, chkS]
+  rw [listItems_chk lb fb cur items _ h]
+  simp [h1, chkL, chkS]
+
+theorem functionPop_other (x : String) : skelS (functionPop x) = .other := by
+  simp [functionPop, skelS, assign1, nm, pop1pos, stackE, ctxE, mutatesE, mutatesEL, mutatesKw, badTarget]
+
+theorem break_resL (c : BCtx) (lb fb : Option D4) (cur : D4) (p : Parent) (hp : bBrk c p = true) (hi : Inv c lb fb cur) :
+    ResL c lb fb cur (breakTemplate p) := by
+  cases p <;> simp only [bBrk, beq_iff_eq] at hp
+  case forS =>
+    subst hp; obtain ⟨base, h1, h2⟩ := hi; subst h1; subst h2
+    exact Or.inr ⟨by decide, break_in_loop_ok fb base⟩
+  case whileS =>
+    subst hp; obtain ⟨base, h1, h2⟩ := hi; subst h1; subst h2
+    exact Or.inr ⟨by decide, break_in_loop_ok fb base⟩
+  case lam =>
+    subst hp; obtain ⟨h1, h2⟩ := hi; subst h1; subst h2
+    exact Or.inr ⟨by decide, break_in_lambda_ok lb⟩
+  all_goals exact Or.inl (by simp [breakTemplate, skelL, skelS, chkL, chkS])
+
+theorem recurse_resL (c : BCtx) (lb fb : Option D4) (cur : D4) (p : Parent) (hp : bRec c p = true) (hi : Inv c lb fb cur) :
+    ResL c lb fb cur (recurseTemplate p) := by
+  cases p <;> simp only [bRec, beq_iff_eq] at hp
+  case forS =>
+    subst hp; obtain ⟨base, h1, h2⟩ := hi; subst h1; subst h2
+    exact Or.inr ⟨by decide, continue_in_loop_ok fb base⟩
+  case whileS =>
+    subst hp; obtain ⟨base, h1, h2⟩ := hi; subst h1; subst h2
+    exact Or.inr ⟨by decide, continue_in_loop_ok fb base⟩
+  all_goals exact Or.inl (by
+    simp [recurseTemplate, skelL, skelS, chkL, chkS, stackE, nm, kwCtx, ctxE, mutatesE, mutatesEL, mutatesKw, badTarget, isCtxList,
+      isBookList])
+
+theorem arity_mut (ar : Option Nat) : mutatesE (arityExpr ar) = false := by
+  cases ar <;> simp [arityExpr, mutatesE, ctxE]
+
+/-! ### the induction over the program -/
+
+theorem res_plain {lb fb : Option D4} {cur : D4} {code : List PyStmt} (h : ResL .plain lb fb cur code) :
+    chkL lb fb cur (skelL code) = some (some cur) := by
+  rcases h with h | ⟨hc, _⟩
+  · exact h
+  · exact absurd rfl hc
+
+theorem fnBody_of_res (body : List PyStmt) (h : ResL .lam none (some D4.zero) all1 body) : FnBodyOK all1 body := by
+  rcases h with h | ⟨_, h⟩
+  · exact Or.inl h
+  · exact Or.inr h
+
+theorem allRes_mem (c : BCtx) (lb fb : Option D4) (cur : D4) : ∀ (cs : List (List PyStmt)), allRes c lb fb cur cs →
+    ∀ i ∈ cs, ResL c lb fb cur i
+  | [], _, i, hi => by simp at hi
+  | b :: r, h, i, hi => by
+      rcases List.mem_cons.mp hi with rfl | hi
+      · exact h.1
+      · exact allRes_mem c lb fb cur r h.2 i hi
+
+theorem chk_append_exact (lb fb : Option D4) (cur : D4) (a b : List PyStmt) (ha : chkL lb fb cur (skelL a) = some (some cur))
+    (hb : chkL lb fb cur (skelL b) = some (some cur)) : chkL lb fb cur (skelL (a ++ b)) = some (some cur) := by
+  rw [skelL_append, chkL_append, ha]; exact hb
+
+mutual
+theorem trS_bal (env : TEnv) (hT : TablesBalanced env) : ∀ (s : Structure) (c : BCtx) (k : Nat) (code : List PyStmt) (k' : Nat),
+    bplS c s = true → transpileS env k s = .ok (code, k') → ∀ (lb fb : Option D4) (cur : D4), Inv c lb fb cur → ResL c lb fb cur code
+  | .generic t, c, k, code, k', _, ht, lb, fb, cur, _ => by
+      simp only [transpileS] at ht
+      cases htt : transpileToken env t with
+      | error e => simp [htt] at ht
+      | ok cd => simp [htt] at ht; obtain ⟨h1, _⟩ := ht; subst h1; exact exact_resL c lb fb cur _ (token_chk env hT t cd htt lb fb cur)
+  | .brk p, c, k, code, k', hp, ht, lb, fb, cur, hi => by
+      simp [transpileS] at ht; obtain ⟨h1, _⟩ := ht; subst h1
+      exact break_resL c lb fb cur p (by simpa [bplS] using hp) hi
+  | .recurse p, c, k, code, k', hp, ht, lb, fb, cur, hi => by
+      simp [transpileS] at ht; obtain ⟨h1, _⟩ := ht; subst h1
+      exact recurse_resL c lb fb cur p (by simpa [bplS] using hp) hi
+  | .ifS bs, c, k, code, k', hp, ht, lb, fb, cur, hi => by
+      simp only [bplS] at hp
+      simp only [transpileS] at ht
+      cases hll : transpileLL env k bs with
+      | error e => simp [hll] at ht
+      | ok r =>
+        obtain ⟨cs, k1⟩ := r
+        simp [hll] at ht; obtain ⟨h1, _⟩ := ht; subst h1
+        exact ifChain_resL c lb fb cur cs (trLL_bal env hT bs c k cs k1 hp hll lb fb cur hi)
+  | .forS names body, c, k, code, k', hp, ht, lb, fb, cur, _ => by
+      simp only [bplS] at hp
+      cases names with
+      | nil =>
+        simp only [transpileS] at ht
+        cases hb : transpileL env (k + 1) body with
+        | error e => simp [hb] at ht
+        | ok r =>
+          obtain ⟨b, k2⟩ := r
+          simp [hb] at ht; obtain ⟨h1, _⟩ := ht; subst h1
+          exact exact_resL c lb fb cur _ (for_template_balanced lb fb cur _ _ (by simp [mutatesE])
+            (loopBody_of_res fb cur _ (resL_orPass _ _ _ _ _ (trL_bal env hT body .loop (k + 1) b k2 hp hb (some cur) fb (cur.add cv1) ⟨cur, rfl, rfl⟩))))
+      | cons nm rest =>
+        simp only [transpileS] at ht
+        cases hb : transpileL env k body with
+        | error e => simp [hb] at ht
+        | ok r =>
+          obtain ⟨b, k2⟩ := r
+          simp [hb] at ht; obtain ⟨h1, _⟩ := ht; subst h1
+          have hbw := loopBody_of_res fb cur _ (resL_orPass _ _ _ _ _ (trL_bal env hT body .loop k b k2 hp hb (some cur) fb (cur.add cv1) ⟨cur, rfl, rfl⟩))
+          split
+          · exact exact_resL c lb fb cur _ (for_template_balanced lb fb cur _ _ (by simp [mutatesE, ctxE]) hbw)
+          · exact exact_resL c lb fb cur _ (for_template_balanced lb fb cur _ _ (by simp [mutatesE]) hbw)
+  | .whileS Option.none body, c, k, code, k', hp, ht, lb, fb, cur, _ => by
+      simp only [bplS] at hp
+      simp only [transpileS] at ht
+      cases hc : transpileToken env ⟨.number, [49]⟩ with
+      | error e => simp [hc] at ht
+      | ok cd =>
+        cases hb : transpileL env k body with
+        | error e => simp [hc, hb] at ht
+        | ok r =>
+          obtain ⟨b, k2⟩ := r
+          simp [hc, hb] at ht; obtain ⟨h1, _⟩ := ht; subst h1
+          exact exact_resL c lb fb cur _ (while_template_balanced lb fb cur cd _ (fun l f d => token_chk env hT _ cd hc l f d)
+            (loopBody_of_res fb cur _ (resL_orPass _ _ _ _ _ (trL_bal env hT body .loop k b k2 hp hb (some cur) fb (cur.add cv1) ⟨cur, rfl, rfl⟩))))
+  | .whileS (some cnd) body, c, k, code, k', hp, ht, lb, fb, cur, _ => by
+      simp only [bplS, Bool.and_eq_true] at hp
+      simp only [transpileS] at ht
+      cases hc1 : transpileL env k cnd with
+      | error e => simp [hc1] at ht
+      | ok r1 =>
+        obtain ⟨c1, k1⟩ := r1
+        cases hb : transpileL env k1 body with
+        | error e => simp [hc1, hb] at ht
+        | ok r2 =>
+          obtain ⟨b, k2⟩ := r2
+          cases hc2 : transpileL env k2 cnd with
+          | error e => simp [hc1, hb, hc2] at ht
+          | ok r3 =>
+            obtain ⟨c2, k3⟩ := r3
+            simp [hc1, hb, hc2] at ht; obtain ⟨h1, _⟩ := ht; subst h1
+            have w1 := res_plain (resL_orPass _ _ _ _ _ (trL_bal env hT cnd .plain k c1 k1 hp.1 hc1 lb fb cur trivial))
+            have w2 := res_plain (resL_orPass _ _ _ _ _ (trL_bal env hT cnd .plain k2 c2 k3 hp.1 hc2 (some cur) fb cur trivial))
+            have wb := loopBody_of_res fb cur _ (resL_orPass _ _ _ _ _ (trL_bal env hT body .loop k1 b k2 hp.2 hb (some cur) fb (cur.add cv1) ⟨cur, rfl, rfl⟩))
+            have := while2_chk lb fb cur (orPass c1) (orPass c2) (orPass b) w1 w2 wb
+            exact exact_resL c lb fb cur _ (by simpa using this)
+  | .fnCall name, c, k, code, k', _, ht, lb, fb, cur, _ => by
+      simp [transpileS] at ht; obtain ⟨h1, _⟩ := ht; subst h1
+      exact exact_resL c lb fb cur _ (fnCall_chk lb fb cur name)
+  | .fnDef name params body, c, k, code, k', hp, ht, lb, fb, cur, _ => by
+      simp only [bplS] at hp
+      simp only [transpileS] at ht
+      cases hb : transpileL env k body with
+      | error e => simp [hb] at ht
+      | ok r =>
+        obtain ⟨b, k2⟩ := r
+        simp [hb] at ht; obtain ⟨h1, _⟩ := ht; subst h1
+        exact exact_resL c lb fb cur _ (fnDef_chk lb fb cur name params _
+          (res_plain (resL_orPass _ _ _ _ _ (trL_bal env hT body .plain k b k2 hp hb none (some D4.zero) fn1 trivial))))
+  | .lam ar body, c, k, code, k', hp, ht, lb, fb, cur, _ => by
+      simp only [bplS] at hp
+      simp only [transpileS] at ht
+      cases hb : transpileL env (k + 1) body with
+      | error e => simp [hb] at ht
+      | ok r =>
+        obtain ⟨b, k2⟩ := r
+        simp [hb] at ht; obtain ⟨h1, _⟩ := ht; subst h1
+        exact exact_resL c lb fb cur _ (lambda_template_balanced lb fb cur _ _ _ (arity_mut ar)
+          (fnBody_of_res _ (resL_orPass _ _ _ _ _ (trL_bal env hT body .lam (k + 1) b k2 hp hb none (some D4.zero) all1 ⟨rfl, rfl⟩))))
+  | .lamOp kind body, c, k, code, k', hp, ht, lb, fb, cur, _ => by
+      simp only [bplS] at hp
+      simp only [transpileS] at ht
+      cases hb : transpileL env (k + 1) body with
+      | error e => simp [hb] at ht
+      | ok r =>
+        obtain ⟨b, k2⟩ := r
+        cases hta : transpileToken env ⟨.general, lamOpKey kind⟩ with
+        | error e => simp [hb, hta] at ht
+        | ok a =>
+          simp [hb, hta] at ht; obtain ⟨h1, _⟩ := ht; subst h1
+          exact exact_resL c lb fb cur _ (chk_append_exact lb fb cur _ _
+            (lambda_template_balanced lb fb cur _ _ _ (by simp [mutatesE])
+              (fnBody_of_res _ (resL_orPass _ _ _ _ _ (trL_bal env hT body .lam (k + 1) b k2 hp hb none (some D4.zero) all1 ⟨rfl, rfl⟩))))
+            (token_chk env hT _ a hta lb fb cur))
+  | .listS items, c, k, code, k', hp, ht, lb, fb, cur, _ => by
+      simp only [bplS] at hp
+      simp only [transpileS] at ht
+      cases hll : transpileLL env k items with
+      | error e => simp [hll] at ht
+      | ok r =>
+        obtain ⟨cs, k1⟩ := r
+        simp [hll] at ht; obtain ⟨h1, _⟩ := ht; subst h1
+        have hall := trLL_bal env hT items .plain k cs k1 hp hll none (some D4.zero) D4.zero trivial
+        exact exact_resL c lb fb cur _ (list_chk lb fb cur cs (fun i hi => res_plain (allRes_mem _ _ _ _ cs hall i hi)))
+  | .mon m a, c, k, code, k', hp, ht, lb, fb, cur, _ => by
+      simp only [bplS] at hp
+      simp only [transpileS] at ht
+      cases hw : wrapLambda env k a with
+      | error e => simp [hw] at ht
+      | ok r =>
+        obtain ⟨fa, k1⟩ := r
+        cases hmt : modTemplate env m with
+        | error e => simp [hw, hmt] at ht
+        | ok tmpl =>
+          simp [hw, hmt] at ht; obtain ⟨h1, _⟩ := ht; subst h1
+          refine exact_resL c lb fb cur _ (chk_append_exact lb fb cur _ _ (wrap_bal env hT a k fa k1 hp hw lb fb cur) ?_)
+          rw [other_chk lb fb cur _ _ (functionPop_other "A")]
+          exact mod_chk env hT m tmpl hmt lb fb cur
+  | .dy m a b, c, k, code, k', hp, ht, lb, fb, cur, _ => by
+      simp only [bplS, Bool.and_eq_true] at hp
+      simp only [transpileS] at ht
+      cases hwa : wrapLambda env k a with
+      | error e => simp [hwa] at ht
+      | ok r =>
+        obtain ⟨fa, k1⟩ := r
+        cases hwb : wrapLambda env k1 b with
+        | error e => simp [hwa, hwb] at ht
+        | ok r2 =>
+          obtain ⟨fb', k2⟩ := r2
+          cases hmt : modTemplate env m with
+          | error e => simp [hwa, hwb, hmt] at ht
+          | ok tmpl =>
+            simp [hwa, hwb, hmt] at ht; obtain ⟨h1, _⟩ := ht; subst h1
+            refine exact_resL c lb fb cur _ (chk_append_exact lb fb cur _ _ (wrap_bal env hT a k fa k1 hp.1 hwa lb fb cur) ?_)
+            rw [other_chk lb fb cur _ _ (functionPop_other "A")]
+            refine chk_append_exact lb fb cur _ _ (wrap_bal env hT b k1 fb' k2 hp.2 hwb lb fb cur) ?_
+            rw [other_chk lb fb cur _ _ (functionPop_other "B")]
+            exact mod_chk env hT m tmpl hmt lb fb cur
+  | .tri m a b c', c, k, code, k', hp, ht, lb, fb, cur, _ => by
+      simp only [bplS, Bool.and_eq_true] at hp
+      simp only [transpileS] at ht
+      cases hwa : wrapLambda env k a with
+      | error e => simp [hwa] at ht
+      | ok r =>
+        obtain ⟨fa, k1⟩ := r
+        cases hwb : wrapLambda env k1 b with
+        | error e => simp [hwa, hwb] at ht
+        | ok r2 =>
+          obtain ⟨fb', k2⟩ := r2
+          cases hwc : wrapLambda env k2 c' with
+          | error e => simp [hwa, hwb, hwc] at ht
+          | ok r3 =>
+            obtain ⟨fc, k3⟩ := r3
+            cases hmt : modTemplate env m with
+            | error e => simp [hwa, hwb, hwc, hmt] at ht
+            | ok tmpl =>
+              simp [hwa, hwb, hwc, hmt] at ht; obtain ⟨h1, _⟩ := ht; subst h1
+              refine exact_resL c lb fb cur _ (chk_append_exact lb fb cur _ _ (wrap_bal env hT a k fa k1 hp.1.1 hwa lb fb cur) ?_)
+              rw [other_chk lb fb cur _ _ (functionPop_other "A")]
+              refine chk_append_exact lb fb cur _ _ (wrap_bal env hT b k1 fb' k2 hp.1.2 hwb lb fb cur) ?_
+              rw [other_chk lb fb cur _ _ (functionPop_other "B")]
+              refine chk_append_exact lb fb cur _ _ (wrap_bal env hT c' k2 fc k3 hp.2 hwc lb fb cur) ?_
+              rw [other_chk lb fb cur _ _ (functionPop_other "C")]
+              exact mod_chk env hT m tmpl hmt lb fb cur
+theorem wrap_bal (env : TEnv) (hT : TablesBalanced env) : ∀ (s : Structure) (k : Nat) (code : List PyStmt) (k' : Nat),
+    bplS .lam s = true → wrapLambda env k s = .ok (code, k') → ∀ (lb fb : Option D4) (cur : D4),
+    chkL lb fb cur (skelL code) = some (some cur)
+  | .generic t, k, code, k', _, hw, lb, fb, cur => by
+      simp only [wrapLambda] at hw
+      cases ht : transpileToken env t with
+      | error e => simp [ht] at hw
+      | ok b =>
+        simp [ht] at hw; obtain ⟨h1, _⟩ := hw; subst h1
+        exact lambda_template_balanced lb fb cur _ _ _ (pyInt_mut _) (Or.inl (token_chk env hT t b ht none (some D4.zero) all1))
+  | .lam ar body, k, code, k', hp, hw, lb, fb, cur => by
+      simp only [wrapLambda] at hw
+      exact res_plain (trS_bal env hT (.lam ar body) .plain k code k' (by simpa [bplS] using hp) hw lb fb cur trivial)
+  | .brk p, k, code, k', hp, hw, lb, fb, cur => by
+      simp only [wrapLambda] at hw
+      cases hb : transpileS env (k + 1) (.brk p) with
+      | error e => simp [hb] at hw
+      | ok r =>
+        obtain ⟨b, k2⟩ := r; simp [hb] at hw; obtain ⟨h1, _⟩ := hw; subst h1
+        exact lambda_template_balanced lb fb cur _ _ _ (by simp [mutatesE])
+          (fnBody_of_res _ (trS_bal env hT _ .lam (k + 1) b k2 hp hb none (some D4.zero) all1 ⟨rfl, rfl⟩))
+  | .recurse p, k, code, k', hp, hw, lb, fb, cur => by
+      simp only [wrapLambda] at hw
+      cases hb : transpileS env (k + 1) (.recurse p) with
+      | error e => simp [hb] at hw
+      | ok r =>
+        obtain ⟨b, k2⟩ := r; simp [hb] at hw; obtain ⟨h1, _⟩ := hw; subst h1
+        exact lambda_template_balanced lb fb cur _ _ _ (by simp [mutatesE])
+          (fnBody_of_res _ (trS_bal env hT _ .lam (k + 1) b k2 hp hb none (some D4.zero) all1 ⟨rfl, rfl⟩))
+  | .ifS bs, k, code, k', hp, hw, lb, fb, cur => by
+      simp only [wrapLambda] at hw
+      cases hb : transpileS env (k + 1) (.ifS bs) with
+      | error e => simp [hb] at hw
+      | ok r =>
+        obtain ⟨b, k2⟩ := r; simp [hb] at hw; obtain ⟨h1, _⟩ := hw; subst h1
+        exact lambda_template_balanced lb fb cur _ _ _ (by simp [mutatesE])
+          (fnBody_of_res _ (trS_bal env hT _ .lam (k + 1) b k2 hp hb none (some D4.zero) all1 ⟨rfl, rfl⟩))
+  | .forS ns body, k, code, k', hp, hw, lb, fb, cur => by
+      simp only [wrapLambda] at hw
+      cases hb : transpileS env (k + 1) (.forS ns body) with
+      | error e => simp [hb] at hw
+      | ok r =>
+        obtain ⟨b, k2⟩ := r; simp [hb] at hw; obtain ⟨h1, _⟩ := hw; subst h1
+        exact lambda_template_balanced lb fb cur _ _ _ (by simp [mutatesE])
+          (fnBody_of_res _ (trS_bal env hT _ .lam (k + 1) b k2 hp hb none (some D4.zero) all1 ⟨rfl, rfl⟩))
+  | .whileS c body, k, code, k', hp, hw, lb, fb, cur => by
+      simp only [wrapLambda] at hw
+      cases hb : transpileS env (k + 1) (.whileS c body) with
+      | error e => simp [hb] at hw
+      | ok r =>
+        obtain ⟨b, k2⟩ := r; simp [hb] at hw; obtain ⟨h1, _⟩ := hw; subst h1
+        exact lambda_template_balanced lb fb cur _ _ _ (by simp [mutatesE])
+          (fnBody_of_res _ (trS_bal env hT _ .lam (k + 1) b k2 hp hb none (some D4.zero) all1 ⟨rfl, rfl⟩))
+  | .fnCall nme, k, code, k', hp, hw, lb, fb, cur => by
+      simp only [wrapLambda] at hw
+      cases hb : transpileS env (k + 1) (.fnCall nme) with
+      | error e => simp [hb] at hw
+      | ok r =>
+        obtain ⟨b, k2⟩ := r; simp [hb] at hw; obtain ⟨h1, _⟩ := hw; subst h1
+        exact lambda_template_balanced lb fb cur _ _ _ (by simp [mutatesE])
+          (fnBody_of_res _ (trS_bal env hT _ .lam (k + 1) b k2 hp hb none (some D4.zero) all1 ⟨rfl, rfl⟩))
+  | .fnDef nme ps body, k, code, k', hp, hw, lb, fb, cur => by
+      simp only [wrapLambda] at hw
+      cases hb : transpileS env (k + 1) (.fnDef nme ps body) with
+      | error e => simp [hb] at hw
+      | ok r =>
+        obtain ⟨b, k2⟩ := r; simp [hb] at hw; obtain ⟨h1, _⟩ := hw; subst h1
+        exact lambda_template_balanced lb fb cur _ _ _ (by simp [mutatesE])
+          (fnBody_of_res _ (trS_bal env hT _ .lam (k + 1) b k2 hp hb none (some D4.zero) all1 ⟨rfl, rfl⟩))
+  | .lamOp kd body, k, code, k', hp, hw, lb, fb, cur => by
+      simp only [wrapLambda] at hw
+      cases hb : transpileS env (k + 1) (.lamOp kd body) with
+      | error e => simp [hb] at hw
+      | ok r =>
+        obtain ⟨b, k2⟩ := r; simp [hb] at hw; obtain ⟨h1, _⟩ := hw; subst h1
+        exact lambda_template_balanced lb fb cur _ _ _ (by simp [mutatesE])
+          (fnBody_of_res _ (trS_bal env hT _ .lam (k + 1) b k2 hp hb none (some D4.zero) all1 ⟨rfl, rfl⟩))
+  | .listS items, k, code, k', hp, hw, lb, fb, cur => by
+      simp only [wrapLambda] at hw
+      cases hb : transpileS env (k + 1) (.listS items) with
+      | error e => simp [hb] at hw
+      | ok r =>
+        obtain ⟨b, k2⟩ := r; simp [hb] at hw; obtain ⟨h1, _⟩ := hw; subst h1
+        exact lambda_template_balanced lb fb cur _ _ _ (by simp [mutatesE])
+          (fnBody_of_res _ (trS_bal env hT _ .lam (k + 1) b k2 hp hb none (some D4.zero) all1 ⟨rfl, rfl⟩))
+  | .mon m x, k, code, k', hp, hw, lb, fb, cur => by
+      simp only [wrapLambda] at hw
+      cases hb : transpileS env (k + 1) (.mon m x) with
+      | error e => simp [hb] at hw
+      | ok r =>
+        obtain ⟨b, k2⟩ := r; simp [hb] at hw; obtain ⟨h1, _⟩ := hw; subst h1
+        exact lambda_template_balanced lb fb cur _ _ _ (by simp [mutatesE])
+          (fnBody_of_res _ (trS_bal env hT _ .lam (k + 1) b k2 hp hb none (some D4.zero) all1 ⟨rfl, rfl⟩))
+  | .dy m x y, k, code, k', hp, hw, lb, fb, cur => by
+      simp only [wrapLambda] at hw
+      cases hb : transpileS env (k + 1) (.dy m x y) with
+      | error e => simp [hb] at hw
+      | ok r =>
+        obtain ⟨b, k2⟩ := r; simp [hb] at hw; obtain ⟨h1, _⟩ := hw; subst h1
+        exact lambda_template_balanced lb fb cur _ _ _ (by simp [mutatesE])
+          (fnBody_of_res _ (trS_bal env hT _ .lam (k + 1) b k2 hp hb none (some D4.zero) all1 ⟨rfl, rfl⟩))
+  | .tri m x y z, k, code, k', hp, hw, lb, fb, cur => by
+      simp only [wrapLambda] at hw
+      cases hb : transpileS env (k + 1) (.tri m x y z) with
+      | error e => simp [hb] at hw
+      | ok r =>
+        obtain ⟨b, k2⟩ := r; simp [hb] at hw; obtain ⟨h1, _⟩ := hw; subst h1
+        exact lambda_template_balanced lb fb cur _ _ _ (by simp [mutatesE])
+          (fnBody_of_res _ (trS_bal env hT _ .lam (k + 1) b k2 hp hb none (some D4.zero) all1 ⟨rfl, rfl⟩))
+theorem trL_bal (env : TEnv) (hT : TablesBalanced env) : ∀ (prog : List Structure) (c : BCtx) (k : Nat) (code : List PyStmt) (k' : Nat),
+    bplL c prog = true → transpileL env k prog = .ok (code, k') → ∀ (lb fb : Option D4) (cur : D4), Inv c lb fb cur → ResL c lb fb cur code
+  | [], c, k, code, k', _, ht, lb, fb, cur, _ => by
+      simp [transpileL] at ht; obtain ⟨h1, _⟩ := ht; subst h1; exact resL_nil c lb fb cur
+  | s :: rest, c, k, code, k', hp, ht, lb, fb, cur, hi => by
+      simp only [bplL, Bool.and_eq_true] at hp
+      simp only [transpileL] at ht
+      cases hs : transpileS env k s with
+      | error e => simp [hs] at ht
+      | ok r1 =>
+        obtain ⟨a, k1⟩ := r1
+        cases hr : transpileL env k1 rest with
+        | error e => simp [hs, hr] at ht
+        | ok r2 =>
+          obtain ⟨b, k2⟩ := r2
+          simp [hs, hr] at ht; obtain ⟨h1, _⟩ := ht; subst h1
+          exact resL_append c lb fb cur a b (trS_bal env hT s c k a k1 hp.1 hs lb fb cur hi) (trL_bal env hT rest c k1 b k2 hp.2 hr lb fb cur hi)
+theorem trLL_bal (env : TEnv) (hT : TablesBalanced env) : ∀ (bs : List (List Structure)) (c : BCtx) (k : Nat) (cs : List (List PyStmt)) (k' : Nat),
+    bplLL c bs = true → transpileLL env k bs = .ok (cs, k') → ∀ (lb fb : Option D4) (cur : D4), Inv c lb fb cur → allRes c lb fb cur cs
+  | [], c, k, cs, k', _, ht, lb, fb, cur, _ => by
+      simp [transpileLL] at ht; obtain ⟨h1, _⟩ := ht; subst h1; trivial
+  | b :: rest, c, k, cs, k', hp, ht, lb, fb, cur, hi => by
+      simp only [bplLL, Bool.and_eq_true] at hp
+      simp only [transpileLL] at ht
+      cases hl : transpileL env k b with
+      | error e => simp [hl] at ht
+      | ok r1 =>
+        obtain ⟨a, k1⟩ := r1
+        cases hr : transpileLL env k1 rest with
+        | error e => simp [hl, hr] at ht
+        | ok r2 =>
+          obtain ⟨c2, k2⟩ := r2
+          simp [hl, hr] at ht; obtain ⟨h1, _⟩ := ht; subst h1
+          exact ⟨resL_orPass c lb fb cur a (trL_bal env hT b c k a k1 hp.1 hl lb fb cur hi), trLL_bal env hT rest c k1 c2 k2 hp.2 hr lb fb cur hi⟩
+end
+
+/-- **C12, tree level**: the Python generated for *any* parsed program — every structure, modifier and token kind, any
+    nesting — whose `X` / `x` stand at the depth their template undoes (`bplL .plain`: a loop's `X` in that loop's body, a
+    lambda's `X` directly in its body) is accepted by the delta typing: by `balanced_sound`, every normally finishing
+    execution of it — whatever the conditions and iteration counts, early exits included — leaves the four bookkeeping
+    depths where they were. -/
+theorem transpile_balanced (env : TEnv) (hT : TablesBalanced env) (prog : List Structure) (hp : bplL .plain prog = true)
+    (code : List PyStmt) (ht : transpileAst env prog = .ok code) : balancedTop code = true := by
+  unfold transpileAst at ht
+  cases htl : transpileL env 0 prog with
+  | error e => simp [htl] at ht
+  | ok r =>
+    obtain ⟨c, k'⟩ := r
+    simp [htl] at ht; subst ht
+    have := res_plain (resL_orPass _ _ _ _ _ (trL_bal env hT prog .plain 0 c k' hp htl none none D4.zero trivial))
+    simp [balancedTop, this]
+
+/-- … and so the depths are restored (the two theorems composed) -/
+theorem transpiled_program_restores_depths (env : TEnv) (hT : TablesBalanced env) (prog : List Structure)
+    (hp : bplL .plain prog = true) (code : List PyStmt) (ht : transpileAst env prog = .ok code) (c c' : D4)
+    (hx : ExecL (skelL code) c c' .normal) : c' = c :=
+  balanced_sound code (transpile_balanced env hT prog hp code ht) c c' hx
+
+theorem gen_tables_balanced (env : TEnv) (he : env.elements = Gen.elements) (hm : env.modifiers = Gen.modifiers) : TablesBalanced env := by
+  unfold TablesBalanced
+  rw [he, hm, List.all_append, element_templates_balanced, modifier_templates_balanced]; rfl
 
 end C12
